@@ -1,4 +1,5 @@
 mod dom;
+mod sstr;
 
 use std::io::{BufWriter, Write};
 
@@ -28,6 +29,28 @@ fn main() {
             let episodes: usize = arg(&args, "--episodes", "10").parse().unwrap();
             let steps: usize = arg(&args, "--steps", "40").parse().unwrap();
             dom::drive(seed, episodes, steps, max_ref, slots, &mut out);
+        }
+        "sstr-replay" => {
+            let threads: usize = arg(&args, "--threads", "3").parse().unwrap();
+            let slots: usize = arg(&args, "--slots", "2").parse().unwrap();
+            let contents: i64 = arg(&args, "--contents", "2").parse().unwrap();
+            let maxbuf: usize = arg(&args, "--maxbuf", "8").parse().unwrap();
+            let stdin = std::io::stdin();
+            sstr::replay(threads, slots, contents, maxbuf, &mut stdin.lock(), &mut out);
+        }
+        "sstr-stress" => {
+            let threads: usize = arg(&args, "--threads", "8").parse().unwrap();
+            let slots: usize = arg(&args, "--slots", "3").parse().unwrap();
+            let contents: i64 = arg(&args, "--contents", "3").parse().unwrap();
+            let seed: u64 = arg(&args, "--seed", "1").parse().unwrap();
+            let rounds: usize = arg(&args, "--rounds", "50").parse().unwrap();
+            let ops: usize = arg(&args, "--ops", "2000").parse().unwrap();
+            sstr::stress(seed, threads, slots, contents, rounds, ops, &mut out);
+        }
+        "uid-stress" => {
+            let threads: usize = arg(&args, "--threads", "8").parse().unwrap();
+            let calls: usize = arg(&args, "--calls", "2000").parse().unwrap();
+            sstr::stress_uid(threads, calls, &mut out);
         }
         _ => {
             eprintln!("usage: rbxv <subcommand> ...");
